@@ -643,6 +643,43 @@ func c06ModelCase(c *mon.Case, refc, withDelay bool) {
 				fail("removekey-existed", "KeyedRefCount.RemoveKey(%s) returned %v, the model says %v", key, existed, me)
 				return
 			}
+		case k == 11 && r.IntN(3) == 0:
+			// ResetRoutine / RestartRoutine never change the key set; a reset constructs anew and starts the delay of a
+			// pending removal again, a restart leaves a pending removal as it is
+			reset := r.IntN(2) == 0
+			mk, me := model[key]
+			tB := time.Now()
+			var existed, did bool
+			switch {
+			case reset && w.rc != nil:
+				existed, did = w.rc.ResetRoutine(key)
+			case reset:
+				existed, did = w.k.ResetRoutine(key)
+			case w.rc != nil:
+				existed, did = w.rc.RestartRoutine(key)
+			default:
+				existed, did = w.k.RestartRoutine(key)
+			}
+			tA := time.Now()
+			if !guardOK() {
+				return
+			}
+			what := map[bool]string{true: "ResetRoutine", false: "RestartRoutine"}[reset]
+			log = append(log, fmt.Sprintf("%s(%s)=(%v,%v)", what, key, existed, did))
+			c.Count("calls_compared", 1)
+			c.Count("reset_restart_calls_in_model", 1)
+			if wantDid := me && (reset || hasCtx); existed != me || did != wantDid {
+				fail("reset-restart-result", "%s(%s) returned (existed %v, done %v), the model says (%v, %v)", what, key, existed, did, me, wantDid)
+				return
+			}
+			if me && reset {
+				mk.ctor, mk.outcome, mk.started, mk.failedOK = nextID, w.outcome(key, nextID), hasCtx, false
+				if mk.pending {
+					mk.tBefore, mk.tAfter = tB, tA
+				}
+			} else if me && hasCtx {
+				mk.started = true
+			}
 		case k == 11 && r.IntN(2) == 0:
 			// context calls never change the key set, pending delayed removals included
 			if hasCtx && r.IntN(2) == 0 {
@@ -1050,6 +1087,9 @@ func runC07(w *mon.Worker) {
 	}
 	for i := 0; i < w.Share(w.Scale(96, 3000)); i++ {
 		w.Case("retry-template", nil, c07RetryTemplateCase)
+	}
+	for i := 0; i < w.Share(w.Scale(64, 1000)); i++ {
+		w.Case("restart-pending-removal", nil, c07RestartPendingRemovalCase)
 	}
 	for i := 0; i < w.Share(w.Scale(64, 2000)); i++ {
 		w.Case("removal-gate", nil, c07RemovalGateCase)
@@ -1463,6 +1503,81 @@ func c07DelayedRemovalCase(c *mon.Case) {
 			c.Violate("removal", "keyed-removed-instance-not-cancelled", "after the delayed removal of key a (RemoveKey at %d, then %s) instance #%d still has a live context at quiescence", call, meanwhile, in.n)
 			return
 		}
+	}
+	w.k.ClearContext()
+}
+
+// c07RestartPendingRemovalCase: the key's removal is pending (one-hour release delay, so no timer fires within the
+// case), its routine then fails on its own; RestartRoutine / RestartAllRoutines restart it - the key is still in the set -
+// and a later SetKey(start=false) finds the key and its running instance: never two instances, never an instance of a
+// key that is not in the set.
+func c07RestartPendingRemovalCase(c *mon.Case) {
+	r := c.Rng
+	failNow := make(chan struct{})
+	var once sync.Once
+	release := func() { once.Do(func() { close(failNow) }) }
+	defer release()
+	behave := func(n int, key string, ctor int) (bool, int, error) {
+		if n == 0 {
+			<-failNow
+			return false, 0, fmt.Errorf("error-inst-0")
+		}
+		return true, 0, nil
+	}
+	w := newK7World(c, false, time.Hour, behave)
+	ctx, cancel := context.WithCancel(context.Background())
+	defer cancel()
+	w.k.SetContext(ctx, false)
+	w.k.SetKey("a", true)
+	if !mon.Quiesce(5 * time.Second) {
+		c.Inconclusive("no quiescence at start")
+		return
+	}
+	w.k.RemoveKey("a")
+	c.Rec("d", "RemoveKey a (delay 1h); the routine now fails on its own", nil)
+	release()
+	if !mon.Quiesce(5 * time.Second) {
+		c.Inconclusive("no quiescence after the failure")
+		return
+	}
+	what := "RestartRoutine"
+	if r.IntN(2) == 0 {
+		w.k.RestartRoutine("a")
+	} else {
+		what = "RestartAllRoutines"
+		w.k.RestartAllRoutines()
+	}
+	c.Rec("d", what, nil)
+	if !mon.Quiesce(5 * time.Second) {
+		c.Inconclusive("no quiescence after the restart")
+		return
+	}
+	c.Count("restart_pending_removal_templates", 1)
+	c.NonTrivial()
+	live := func() (n int, list string) {
+		for _, in := range w.instances() {
+			if in.exit.Load() == 0 && in.ctx.Err() == nil {
+				n++
+				list += fmt.Sprintf("#%d(ctor %d) ", in.n, in.ctor)
+			}
+		}
+		return
+	}
+	_, present := w.k.GetKey("a")
+	if n, list := live(); n != 0 && !present {
+		c.Violate("removal", "keyed-instance-of-absent-key", "RemoveKey(a) (one-hour release delay), the routine failed, then %s: GetKey(a) reports the key absent while instance(s) %srun with a live context", what, list)
+		return
+	} else if n > 1 {
+		c.Violate("overlap", "keyed-instances-overlap", "after %s of a key whose removal is pending, %d instances run: %s", what, n, list)
+		return
+	}
+	w.k.SetKey("a", false)
+	if !mon.Quiesce(5 * time.Second) {
+		c.Inconclusive("no quiescence after SetKey")
+		return
+	}
+	if n, list := live(); n > 1 {
+		c.Violate("overlap", "keyed-instances-overlap", "RemoveKey(a) (one-hour release delay), the routine failed, %s, SetKey(a, start=false): %d instances of key a run with live contexts: %s", what, n, list)
 	}
 	w.k.ClearContext()
 }
